@@ -1,3 +1,189 @@
-From DX Require Import Bytes.
-Theorem placeholder : True. Proof. exact I. Qed.
-Print Assumptions placeholder.
+(* C16 — Line splitting is lossless and consistent between its two modes.
+   Statements only; proofs are in theories/TextFacts.v.
+   [unbordered nl]: no proper non-empty prefix of nl is also a suffix of nl (nl cannot overlap itself).
+   The hypothesis is necessary (C16_needs_unbordered) and holds for every newline the library uses
+   (C16_library_newlines_unbordered, C16_model_newlines_unbordered, C16_ten_newlines_unbordered). *)
+From Coq Require Import List Arith Bool Strings.Byte.
+From DX Require Import Bytes Res Codec Text TextFacts.
+From DXGen Require GenCodecs GenText.
+Import ListNotations.
+Local Open Scope list_scope.
+
+(* ---- meaning of the vocabulary used below ---- *)
+
+Theorem C16_bstarts_spec : forall p l : bytes, bstarts p l = true <-> exists r, l = p ++ r.
+Proof. exact bstarts_spec. Qed.
+Print Assumptions C16_bstarts_spec.
+
+Theorem C16_bends_spec : forall s l : bytes, bends s l = true <-> exists q, l = q ++ s.
+Proof. exact bends_spec. Qed.
+Print Assumptions C16_bends_spec.
+
+(* occurrences = 0 means: the pattern starts at no position *)
+Theorem C16_occurrences_zero : forall pat l : bytes,
+  occurrences byte_eqb pat l = 0 <-> (forall i, i < length l -> bstarts pat (skipn i l) = false).
+Proof. exact (occurrences_zero_iff byte_eqb). Qed.
+Print Assumptions C16_occurrences_zero.
+
+(* a terminated line is body ++ nl with nl starting at no position inside body (overlaps with the end included) *)
+Theorem C16_terminated_spec : forall nl ln : bytes, nl <> [] ->
+  (b_terminated nl ln <->
+   exists body, ln = body ++ nl /\ forall i, i < length body -> bstarts nl (skipn i ln) = false).
+Proof. exact b_terminated_positions. Qed.
+Print Assumptions C16_terminated_spec.
+
+Theorem C16_terminated_def : forall nl ln : bytes,
+  b_terminated nl ln <-> exists body, ln = body ++ nl /\ occurrences byte_eqb nl ln = 1.
+Proof. intros; reflexivity. Qed.
+Print Assumptions C16_terminated_def.
+
+(* an unterminated line is non-empty, does not end with nl and contains nl nowhere *)
+Theorem C16_unterminated_def : forall nl ln : bytes,
+  b_unterminated nl ln <-> ln <> [] /\ bends nl ln = false /\ occurrences byte_eqb nl ln = 0.
+Proof. intros; reflexivity. Qed.
+Print Assumptions C16_unterminated_def.
+
+Theorem C16_unterminated_spec : forall nl ln : bytes,
+  b_unterminated nl ln ->
+  ln <> [] /\ bends nl ln = false /\ forall i, i < length ln -> bstarts nl (skipn i ln) = false.
+Proof. exact b_unterminated_positions. Qed.
+Print Assumptions C16_unterminated_spec.
+
+(* strip_one removes exactly one trailing newline from a line that ends with it, and nothing otherwise *)
+Theorem C16_strip_one_spec : forall nl body ln : bytes,
+  b_strip_one nl (body ++ nl) = body /\ (bends nl ln = false -> b_strip_one nl ln = ln).
+Proof. exact b_strip_one_spec. Qed.
+Print Assumptions C16_strip_one_spec.
+
+Theorem C16_unbordered_def : forall nl : bytes,
+  unbordered nl <->
+  (forall b, b <> [] -> length b < length nl -> (exists r, nl = b ++ r) -> (exists q, nl = q ++ b) -> False).
+Proof. intros; reflexivity. Qed.
+Print Assumptions C16_unbordered_def.
+
+(* ---- the split underneath ---- *)
+
+Theorem C16_join_split : forall sep l : bytes, sep <> [] -> join sep (bsplit sep l) = l.
+Proof. exact bjoin_bsplit. Qed.
+Print Assumptions C16_join_split.
+
+(* ---- the property ---- *)
+
+Theorem C16_total : forall (d nl : bytes) (k : bool),
+  (d <> [] -> nl <> [] -> exists ls, split_lines d nl k = Ok ls) /\
+  (d = [] \/ nl = [] -> split_lines d nl k = Err EAssertion).
+Proof. intros; split; [apply C16b_total_ok | apply C16b_total_err]. Qed.
+Print Assumptions C16_total.
+
+Theorem C16_concat : forall (d nl : bytes) (ls : list bytes),
+  d <> [] -> nl <> [] -> unbordered nl ->
+  split_lines d nl true = Ok ls -> concat ls = d.
+Proof. exact C16b_concat. Qed.
+Print Assumptions C16_concat.
+
+Theorem C16_shape : forall (d nl : bytes) (ls : list bytes),
+  d <> [] -> nl <> [] -> unbordered nl ->
+  split_lines d nl true = Ok ls ->
+  exists init lst, ls = init ++ [lst] /\
+                   Forall (b_terminated nl) init /\
+                   (b_terminated nl lst <-> bends nl d = true) /\
+                   (b_unterminated nl lst <-> bends nl d = false).
+Proof. exact C16b_shape. Qed.
+Print Assumptions C16_shape.
+
+Theorem C16_count : forall (d nl : bytes) (ls : list bytes),
+  d <> [] -> nl <> [] -> unbordered nl ->
+  split_lines d nl true = Ok ls ->
+  length ls = occurrences byte_eqb nl d + (if bends nl d then 0 else 1).
+Proof. exact C16b_count. Qed.
+Print Assumptions C16_count.
+
+Theorem C16_count_nokeep : forall (d nl : bytes) (ls : list bytes),
+  d <> [] -> nl <> [] -> unbordered nl ->
+  split_lines d nl false = Ok ls ->
+  length ls = occurrences byte_eqb nl d + (if bends nl d then 0 else 1).
+Proof. exact C16b_count_nokeep. Qed.
+Print Assumptions C16_count_nokeep.
+
+(* holds without [unbordered] *)
+Theorem C16_modes : forall (d nl : bytes) (ls : list bytes),
+  d <> [] -> nl <> [] ->
+  split_lines d nl true = Ok ls ->
+  split_lines d nl false = Ok (map (b_strip_one nl) ls).
+Proof. exact C16b_modes. Qed.
+Print Assumptions C16_modes.
+
+(* all clauses at once *)
+Theorem C16_all : forall d nl : bytes, d <> [] -> nl <> [] -> unbordered nl ->
+  exists ls,
+    split_lines d nl true = Ok ls /\
+    concat ls = d /\
+    (exists init lst, ls = init ++ [lst] /\
+                      Forall (b_terminated nl) init /\
+                      (b_terminated nl lst <-> bends nl d = true) /\
+                      (b_unterminated nl lst <-> bends nl d = false)) /\
+    length ls = occurrences byte_eqb nl d + (if bends nl d then 0 else 1) /\
+    split_lines d nl false = Ok (map (b_strip_one nl) ls).
+Proof. exact C16b_all. Qed.
+Print Assumptions C16_all.
+
+(* ---- the hypothesis [unbordered] is necessary ... ---- *)
+
+Theorem C16_needs_unbordered :
+  let a := x61 in
+  split_lines [a; a; a] [a; a] true = Ok [[a; a]] /\
+  concat [[a; a]] <> [a; a; a] /\
+  ~ unbordered [a; a].
+Proof. exact bordered_newline_loses_a_byte. Qed.
+Print Assumptions C16_needs_unbordered.
+
+(* ---- ... and holds for every newline sequence the library uses ---- *)
+
+(* the ten patterns named in the property: LF, CRLF and their UTF-16/32 LE/BE encodings *)
+Theorem C16_ten_newlines_unbordered : forall nl,
+  In nl [ [x0a]; [x0d; x0a];
+          [x0a; x00]; [x0d; x00; x0a; x00];
+          [x00; x0a]; [x00; x0d; x00; x0a];
+          [x0a; x00; x00; x00]; [x0d; x00; x00; x00; x0a; x00; x00; x00];
+          [x00; x00; x00; x0a]; [x00; x00; x00; x0d; x00; x00; x00; x0a] ] ->
+  nl <> [] /\ unbordered nl.
+Proof. exact ten_newlines_unbordered. Qed.
+Print Assumptions C16_ten_newlines_unbordered.
+
+(* the mid-stream LF / CRLF encodings of every stateless codec of the generated catalogue *)
+Theorem C16_library_newlines_unbordered : forall r, In r GenCodecs.rows -> GenCodecs.cr_stateless r = true ->
+  (GenCodecs.cr_lf_mid r <> [] -> unbordered (GenCodecs.cr_lf_mid r)) /\
+  (GenCodecs.cr_crlf_mid r <> [] -> unbordered (GenCodecs.cr_crlf_mid r)).
+Proof. exact library_newlines_unbordered. Qed.
+Print Assumptions C16_library_newlines_unbordered.
+
+(* all four newline fields of every row, stateless or not; stateless rows have non-empty patterns *)
+Theorem C16_library_all_newlines_unbordered : forall r, In r GenCodecs.rows ->
+  (forall nl, In nl [GenCodecs.cr_lf r; GenCodecs.cr_crlf r; GenCodecs.cr_lf_mid r; GenCodecs.cr_crlf_mid r] ->
+              nl <> [] -> unbordered nl) /\
+  (GenCodecs.cr_stateless r = true -> GenCodecs.cr_lf_mid r <> [] /\ GenCodecs.cr_crlf_mid r <> []).
+Proof. exact library_all_newlines_unbordered. Qed.
+Print Assumptions C16_library_all_newlines_unbordered.
+
+(* every newline the model of get_newline_for_type returns, for any line-endings name and encoding spelling *)
+Theorem C16_model_newlines_unbordered : forall le enc nl,
+  get_newline_for_type le enc = Ok nl -> nl <> [] /\ unbordered nl.
+Proof. exact model_newlines_unbordered. Qed.
+Print Assumptions C16_model_newlines_unbordered.
+
+(* ---- hence the property, hypothesis-free, for the library's newlines ---- *)
+
+Theorem C16_for_ten_newlines : forall d nl : bytes, In nl ten_newlines -> d <> [] -> C16_statement d nl.
+Proof. exact C16b_ten. Qed.
+Print Assumptions C16_for_ten_newlines.
+
+Theorem C16_for_model_newlines : forall le enc nl d,
+  get_newline_for_type le enc = Ok nl -> d <> [] -> C16_statement d nl.
+Proof. exact C16b_model_newlines. Qed.
+Print Assumptions C16_for_model_newlines.
+
+Theorem C16_for_catalogue_newlines : forall r nl d, In r GenCodecs.rows ->
+  In nl [GenCodecs.cr_lf r; GenCodecs.cr_crlf r; GenCodecs.cr_lf_mid r; GenCodecs.cr_crlf_mid r] ->
+  nl <> [] -> d <> [] -> C16_statement d nl.
+Proof. exact C16b_catalogue. Qed.
+Print Assumptions C16_for_catalogue_newlines.
